@@ -33,9 +33,9 @@ using namespace vh;
 using namespace c04;
 using ref::LD;
 
-// KrigingCalcul::_needZstar dereferences '_Means' unconditionally in the SK branch: setData(&Z, nullptr) ("Means ...
-// (optional)") followed by getEstimation() in simple kriging is a null dereference. The generator visits that input
-// class rarely; set to true to keep away from it.
+// KrigingCalcul::_needZstar dereferenced '_Means' unconditionally in simple kriging: setData(&Z, nullptr) ("Means ...
+// (optional)") followed by getEstimation() was a null dereference. The primal branch was fixed in /repo a94ed4633; the
+// DUAL branch (KrigingCalcul.cpp:775, 'if (!_Means->empty())') still is one. Set to true to keep away from null means.
 static const double KAPPA_MAX = 1e6;
 
 static const bool AVOID_KRIBAYES_SELECTION = false || getenv("C04_DEV_AVOID2") != nullptr; // env: developer runs only
@@ -180,7 +180,7 @@ static double G_ZS = 3., G_SILL = 1.; // natural magnitudes of the current case 
 static void cmp3(Ctx& c, const std::string& pfx, const std::string& key, const VectorDouble& est, const VectorDouble& sd,
                  const VectorDouble& vz, const std::vector<double>& wEst, const std::vector<double>& wVar,
                  const std::vector<double>& wVz, double tolE, double tolV, const std::string& what, const std::string& against,
-                 const std::string& estKey = "", double zscale = G_ZS, double vscale = G_SILL)
+                 const std::string& estKey = "", const std::string& varKey = "", double zscale = G_ZS, double vscale = G_SILL)
 {
   size_t q = wEst.size();
   if (est.size() != q)
@@ -195,12 +195,12 @@ static void cmp3(Ctx& c, const std::string& pfx, const std::string& key, const V
     if (!wVar.empty() && sd.size() == q)
     {
       double wv = std::max(wVar[j], 0.0); // both sides clamp negative variances to 0 before the square root
-      closeRel(c, pfx + "-var-" + against, key + ":stdev", sd[j] * sd[j], wv, tolV, vscale, w + fmt(" sd=%.10g", sd[j]));
+      closeRel(c, pfx + "-var-" + against, varKey.empty() ? key + ":stdev" : varKey, sd[j] * sd[j], wv, tolV, vscale, w + fmt(" sd=%.10g", sd[j]));
     }
     else if (!wVar.empty())
       c.check(pfx + "-var-" + against, key + ":stdev:size", false, 1, 0, w + fmt(" getStdv size %zu", sd.size()));
     if (!wVz.empty() && vz.size() == q)
-      closeRel(c, pfx + "-varz-" + against, key + ":varz", vz[j], wVz[j], tolV, vscale, w);
+      closeRel(c, pfx + "-varz-" + against, varKey.empty() ? key + ":varz" : varKey, vz[j], wVz[j], tolV, vscale, w);
     else if (!wVz.empty())
       c.check(pfx + "-varz-" + against, key + ":varz:size", false, 1, 0, w + fmt(" getVarianceZstar size %zu", vz.size()));
   }
@@ -238,9 +238,8 @@ static void run_case(Rng& r, Ctx& c)
   if (form == 2) hetero = 0;
   genValues(r, data, nvar, hetero, L);
   int selMode = r.coin(0.4) ? 1 : 0;
-  // kribayes() with a selection on the data reads its neighbourhood vector out of range (KrigingSystem::
-  // _bayesPreCalculations indexes _nbgh by the absolute sample rank): finding, see report; visited in 1 Bayesian case out of 8
-  if (form == 2 && (AVOID_KRIBAYES_SELECTION || !r.coin(0.125))) selMode = 0;
+  // (kribayes() with a selection used to read its neighbourhood vector out of range; fixed in /repo c6e139518)
+  if (form == 2 && AVOID_KRIBAYES_SELECTION) selMode = 0;
   genSel(r, data, selMode);
   c.setSig(fmt("calcul:%s:ndim=%d:nvar=%d:%s:%s:het=%d:sel=%d", FORM[form], ndim, nvar, ms.sig().c_str(), drift.c_str(), hetero, selMode));
   c.puts("form", FORM[form]);
@@ -300,7 +299,7 @@ static void run_case(Rng& r, Ctx& c)
       for (int i = 0; i < nbfl; i++)
         for (int j = 0; j <= i; j++) pc.setValue(i, j, s[i * nbfl + j]);
     }
-    bool nullMeans = (order < 0 && !nonzeroMeans && !AVOID_CALCUL_NULL_MEANS && r.coin(0.04));
+    bool nullMeans = (order < 0 && !nonzeroMeans && !AVOID_CALCUL_NULL_MEANS && r.coin(0.15));
     KrigingCalcul shared(form == 1);
     bool reuse = r.coin(0.6); // one object re-targeted by setRHS (lazy cache must be invalidated) or a fresh one per target
     for (int t = 0; t < m; t++)
@@ -339,11 +338,11 @@ static void run_case(Rng& r, Ctx& c)
       std::string key = std::string("C04:calcul:") + FORM[form] + ":" + (order < 0 ? "sk" : "uk");
       // simple kriging with non-zero known means has its own estimation key (suspected cause: KrigingCalcul.cpp
       // _needZstar adds the means only when '_Means->empty()')
-      std::string estKey = (order < 0 && nonzeroMeans) ? std::string("C04:calcul:") + FORM[form] + ":sk-nonzero-mean:estim" : "";
+      std::string estKey = (order < 0 && nonzeroMeans) ? std::string("C04:calcul:sk-nonzero-mean:estim") : "";
       std::string pfx    = std::string("kc-") + FORM[form] + ((order < 0 && nonzeroMeans) ? "-skmean" : "");
       if (form == 2)
       {
-        // own oracle family per drift order: kribayes() with a non-constant drift is a finding of its own (see report)
+        // own oracle family per drift order (kribayes() with more than one drift function was wrong until /repo 0548e0629)
         pfx += "-" + drift;
         RefSol RB = refBayes(Sigma, X, Sigma0, X0, Sigma00, Z, pm, pc);
         if (!RB.ok || !(RB.kappa < KAPPA_MAX)) { c.skip("illcond"); continue; }
@@ -355,14 +354,14 @@ static void run_case(Rng& r, Ctx& c)
         StdOut S = stdKriging(data, tg, ms, true, pm, pc);
         if (S.rc == 0 && S.est.size() == 1)
         {
-          closeRel(c, "kribayes-" + drift + "-estim-ref", std::string("C04:kribayes-vs-ref:") + drift + ":estim", S.est[0], RB.est[0], tolE, zs, what);
-          closeRel(c, "kribayes-" + drift + "-var-ref", std::string("C04:kribayes-vs-ref:") + drift + ":stdev", S.sd[0] * S.sd[0], std::max(RB.var[0], 0.), tolV * 10, sill, what);
+          closeRel(c, "kribayes-" + drift + "-estim-ref", std::string("C04:bayes:kribayes:estim"), S.est[0], RB.est[0], tolE, zs, what);
+          closeRel(c, "kribayes-" + drift + "-var-ref", std::string("C04:bayes:kribayes:stdev"), S.sd[0] * S.sd[0], std::max(RB.var[0], 0.), tolV * 10, sill, what);
         }
-        key += ":" + drift;
         if (!c.truth("kc-bayes-rc", key + ":kribayes-rc", S.rc == 0 && S.est.size() == (size_t)nvar, what)) continue;
         std::vector<double> wv;
         for (double s : S.sd) wv.push_back(s * s);
-        cmp3(c, pfx, key, est, sd, VectorDouble(), S.est, wv, {}, tolE, tolV * 10, what, "std");
+        // (one root-cause key for "kribayes() disagrees", whether seen against (R) or against KrigingCalcul)
+        cmp3(c, pfx, key, est, sd, VectorDouble(), S.est, wv, {}, tolE, tolV * 10, what, "std", "C04:bayes:kribayes:estim", "C04:bayes:kribayes:stdev");
         continue;
       }
       // (R) long double reference
@@ -379,7 +378,7 @@ static void run_case(Rng& r, Ctx& c)
         K.setData(&Z2, &means);
         VectorDouble est2 = K.getEstimation();
         cmp3(c, pfx + "-newdata", key + ":after-setData", est2, VectorDouble(), VectorDouble(), R2.est, {}, {}, 1e3 * EPS * R.kappa * 3.0, tolV,
-             what, "ref", estKey.empty() ? "" : estKey + ":after-setData");
+             what, "ref", estKey);
         K.setData(&Z, &means);
       }
       // (S) standard kriging
@@ -442,15 +441,18 @@ static void run_case(Rng& r, Ctx& c)
     if (!c.truth("kc-setters", "C04:calcul:colcok:setter-error", e == 0, what)) return;
     VectorDouble est = K.getEstimation(), sd = K.getStdv(), vz = K.getVarianceZstar();
     std::string key    = std::string("C04:calcul:colcok:") + (order < 0 ? "sk" : "uk");
-    std::string estKey = (order < 0 && nonzeroMeans) ? "C04:calcul:colcok:sk-nonzero-mean:estim" : "";
+    std::string estKey = (order < 0 && nonzeroMeans) ? "C04:calcul:sk-nonzero-mean:estim" : "";
     // simple-kriging collocated variances are a finding of their own (see report): own oracle family
     std::string pfx    = std::string("kc-colcok") + (order < 0 ? (nonzeroMeans ? "-skmean" : "-sk") : "");
-    cmp3(c, pfx, key, est, sd, vz, R.est, R.var, R.varz, tolE, tolV, what, "ref", estKey);
+    // open finding: in simple kriging the collocated stdev / var(Z*) count the cross term Lambda0^T Sigma0p^T Lambda once
+    // too many (KrigingCalcul::_needVarZSK) -> one root-cause key for both outputs
+    std::string varKey = order < 0 ? "C04:calcul:colcok:sk-variance" : "";
+    cmp3(c, pfx, key, est, sd, vz, R.est, R.var, R.varz, tolE, tolV, what, "ref", estKey, varKey);
     StdOut S = stdKriging(comp, tg, ms);
     if (S.rc != 0 || S.est.size() != (size_t)nvar || undef(S.est[0])) { c.skip("std-kriging-refused"); return; }
     std::vector<double> wv;
     for (double s : S.sd) wv.push_back(s * s);
-    cmp3(c, pfx, key, est, sd, vz, S.est, wv, S.vz, tolE, tolV, what, "std", estKey);
+    cmp3(c, pfx, key, est, sd, vz, S.est, wv, S.vz, tolE, tolV, what, "std", estKey, varKey);
     return;
   }
 
@@ -527,7 +529,7 @@ static void run_case(Rng& r, Ctx& c)
     if (!c.truth("kc-setters", "C04:calcul:xvalid:setter-error", e == 0, what)) return;
     VectorDouble est = K.getEstimation(), sd = K.getStdv(), vz = K.getVarianceZstar();
     std::string key    = std::string("C04:calcul:xvalid:") + (order < 0 ? "sk" : "uk");
-    std::string estKey = (order < 0 && nonzeroMeans) ? "C04:calcul:xvalid:sk-nonzero-mean:estim" : "";
+    std::string estKey = (order < 0 && nonzeroMeans) ? "C04:calcul:sk-nonzero-mean:estim" : "";
     std::string pfx    = std::string("kc-xvalid") + ((order < 0 && nonzeroMeans) ? "-skmean" : "");
     cmp3(c, pfx, key, est, sd, vz, wE, wV, wZ, tolE, tolV, what, "ref", estKey);
     StdOut S = stdKriging(dep, tg, ms);
